@@ -570,6 +570,45 @@ func evalModItem(vc *VC, env *Env, m Clause) []modItem {
 		}
 	}
 	if ce, ok := e.(*ast.CallExpr); ok {
+		if id, ok := ce.Fun.(*ast.Ident); ok && id.Name == "cellof" && len(ce.Args) == 2 {
+			// cellof(v, T): the cell of type T behind the pointer boxed in interface value v
+			v, err := env.Expr(ce.Args[0])
+			if err != nil {
+				fail(err.Error())
+			}
+			var ty types.Type
+			func() {
+				defer func() {
+					if r := recover(); r != nil {
+						fail(fmt.Sprint(r))
+					}
+				}()
+				ty = env.typeOfExpr(ce.Args[1])
+			}()
+			return []modItem{{comp: vc.compCell(ty), ref: "(i-ref " + v.T + ")", src: m.Src}}
+		}
+		if id, ok := ce.Fun.(*ast.Ident); ok && id.Name == "cells" && len(ce.Args) == 1 {
+			// cells(T): every cell of type T (e.g. what an unmarshaller writes through an interface-boxed pointer)
+			var ty types.Type
+			func() {
+				defer func() {
+					if r := recover(); r != nil {
+						fail(fmt.Sprint(r))
+					}
+				}()
+				ty = env.typeOfExpr(ce.Args[0])
+			}()
+			if st, ok := ty.Underlying().(*types.Struct); ok {
+				var out []modItem
+				for i := 0; i < st.NumFields(); i++ {
+					out = append(out, modItem{comp: vc.compField(ty, i), src: m.Src})
+				}
+				return out
+			}
+			return []modItem{{comp: vc.compCell(ty), src: m.Src}}
+		}
+	}
+	if ce, ok := e.(*ast.CallExpr); ok {
 		if id, ok := ce.Fun.(*ast.Ident); ok && id.Name == "elems" && len(ce.Args) == 1 {
 			v, err := env.Expr(ce.Args[0])
 			if err != nil {
@@ -970,7 +1009,20 @@ func (ft *fnTrans) loopHead(li *loopInfo, b *ssa.BasicBlock, h *Heap, entryPreds
 	ft.computeLoopWrites(li)
 	topBefore := vc.get(*h, compTop)
 	if li.all {
+		pre := h.clone()
 		vc.havocAll(h)
+		// locals allocated before the loop and not written inside it keep their contents
+		for v, r := range ft.vals {
+			a, ok := v.(*ssa.Alloc)
+			if !ok || a.Heap || li.blocks[a.Block().Index] {
+				continue
+			}
+			for _, c := range ft.objectComps(a.Type().(*types.Pointer).Elem()) {
+				if !li.writes[c] {
+					vc.assume(eq(sel(vc.get(*h, c), r), sel(vc.get(pre, c), r)))
+				}
+			}
+		}
 	} else {
 		for _, c := range sortedKeys(li.writes) {
 			oldT := vc.get(*h, c)
